@@ -115,8 +115,10 @@ def _one(args):
                                             sensitive_features=sf, control_features=cf, sample_params={"fp": {"tag": yfp}})
                         cols = {"fp": True, "fp2": False}
                     elif form == "callable_param":
+                        # the per-sample parameter arrives as a Series whose labels are a permutation of 0..n-1: slicing must stay positional
+                        lab = list(range(n)); rnd.shuffle(lab)
                         mf = fm.MetricFrame(metrics=fingerprint, y_true=yfp, y_pred=yfp, sensitive_features=sf, control_features=cf,
-                                            sample_params={"tag": yfp})
+                                            sample_params={"tag": pd.Series(yfp, index=lab)})
                         cols = {None: True}
                     else:
                         mf = fm.MetricFrame(metrics=fingerprint, y_true=yfp, y_pred=yfp, sensitive_features=sf, control_features=cf)
